@@ -1,3 +1,4 @@
+import RisorModel.C20.Unicode
 /-
 C20 — executable model of risor's lexer (lexer/lexer.go) with its position bookkeeping,
 of `GetLineText`, and of the arithmetic of `FriendlyErrorMessage` (parser/errors.go).
@@ -66,13 +67,20 @@ def lookup1 (c : Nat) : Option String :=
 
 def hasTwo (c : Nat) : Bool := opTable.any fun e => e.1 == c && e.2.1 != 0
 
-/-! ### character classes (ASCII; anything above 127 that would need `unicode.IsLetter`
-    makes the model answer `unsupported`) -/
+/-! ### character classes.  `isLetter` / `isDigit` / `isIdent` are the ASCII classes; a rune
+    above 127 is classified by the tables of Go's package `unicode` (Unicode.lean): `uIdent`
+    (`unicode.IsLetter || unicode.IsDigit`, what `isIdentifier` accepts) and `uNumTrail`
+    (`unicode.IsLetter || unicode.IsNumber`, what `readNumber` refuses after a number) -/
 
 def isBlank (c : Nat) : Bool := c == 32 || c == 9
 def isDigit (c : Nat) : Bool := 48 ≤ c && c ≤ 57
 def isLetter (c : Nat) : Bool := (65 ≤ c && c ≤ 90) || (97 ≤ c && c ≤ 122)
 def isIdent (c : Nat) : Bool := isLetter c || isDigit c || c == 95
+
+/-- `isIdentifier` on a rune above 127 -/
+def uIdent (c : Nat) : Bool := uLetter c || uDigit c
+/-- the trailing check of `readNumber` on a rune above 127 -/
+def uNumTrail (c : Nat) : Bool := uLetter c || uNumber c
 
 def utf8 (c : Nat) : List Nat :=
   if c < 0x80 then [c]
@@ -176,13 +184,16 @@ def dispatch (c : Nat) : Step :=
     else if c == 0 then .emit "EOF" [] .consume true
     else if c == 48 then .more .num0 true
     else if isDigit c then .more (.num .dec [c]) true
-    else if c > 127 then .fail "unsupported"
+    else if c > 127 then
+      -- `readIdentifier`: a non-ASCII letter or digit begins an identifier, any other rune is refused
+      (if uIdent c then .more (.ident (utf8 c)) true else .fail "invalid-identifier")
     else if isIdent c then .more (.ident [c]) true
     else .fail "invalid-identifier"
 
 /-- what follows the digits of a number: the trailing check and the dot -/
 def numTail (m : NumMode) (acc : Chars) (c : Nat) : Step :=
-  if c > 127 then .fail "unsupported"
+  if c > 127 then
+    (if uNumTrail c then .fail "invalid-decimal" else .emit "INT" acc .pushback false)
   else if isLetter c || isDigit c then .fail "invalid-decimal"
   else if c == 46 then
     (match m with
@@ -219,8 +230,11 @@ def stepChar : St → Nat → Step
      | none => match lookup1 a with
        | some k => .emit k [a] .pushback false
        | none => .fail "unexpected-char")
+  -- `acc` = the UTF-8 bytes of the identifier so far (its literal); a non-ASCII rune that is
+  -- not an identifier rune right after an identifier is refused (`peekChar() > unicode.MaxASCII`)
   | .ident acc, c =>
-    if c > 127 then .fail "unsupported"
+    if c > 127 then
+      (if uIdent c then .more (.ident (acc ++ utf8 c)) false else .fail "invalid-identifier")
     else if isIdent c then .more (.ident (acc ++ [c])) false
     else .emit "IDENT?" acc .pushback false
   | .num0, c =>
@@ -236,7 +250,8 @@ def stepChar : St → Nat → Step
     else .fail "invalid-decimal"
   | .numFrac acc frac, c =>
     if isDigit c then .more (.numFrac acc (frac ++ [c])) false
-    else if c > 127 then .fail "unsupported"
+    else if c > 127 then
+      (if uNumTrail c then .fail "invalid-decimal" else .emit "FLOAT" (acc ++ 46 :: frac) .pushback false)
     else if isLetter c then .fail "invalid-decimal"
     else .emit "FLOAT" (acc ++ 46 :: frac) .pushback false
   | .str q k acc, c =>
@@ -390,6 +405,28 @@ def cutsAt : Nat → Chars → Nat → String → Bool
                       && cutsAt f (pre.drop r.next) b k
       | _ => false
 
+/-- `cutsAt2 fuel pre d₁ d₂ prev`: the end of `pre` is a token gap whether the text goes on with
+    the rune `d₁` or with the rune `d₂` — lexing `pre ++ [d₁]` and `pre ++ [d₂]`, every token
+    that begins inside `pre` also ends inside it, looked no further than the one rune after
+    `pre`, and is the same token in both readings.  Decidable guard of `lex_gap_congr` (e.g.
+    `d₁ = #` and `d₂ = newline`: a line comment set directly after the last token of a line). -/
+def cutsAt2 : Nat → Chars → Nat → Nat → String → Bool
+  | 0, _, _, _, _ => false
+  | f + 1, pre, d₁, d₂, prev =>
+    if pre.all isBlank then true
+    else
+      let r₁ := scan (pre ++ [d₁]) prev
+      let r₂ := scan (pre ++ [d₂]) prev
+      match r₁.out with
+      | .tok k _ => k != "EOF" && decide (r₁.next ≤ pre.length) && decide (r₁.seen ≤ pre.length + 1)
+                      && decide (r₂.seen ≤ pre.length + 1) && r₂.out == r₁.out && r₂.next == r₁.next
+                      && cutsAt2 f (pre.drop r₁.next) d₁ d₂ k
+      | _ => false
+
+/-- what `isIdentifier` accepts: an ASCII letter, digit or `_`, or a non-ASCII rune that
+    `unicode.IsLetter` or `unicode.IsDigit` accepts -/
+def identRune (c : Nat) : Bool := if c > 127 then uIdent c else isIdent c
+
 /-! ### positions -/
 
 structure Pos where
@@ -405,6 +442,10 @@ def advance (p : Pos) : Chars → Pos
   | c :: cs =>
     if c == 10 then advance ⟨p.char + 1, p.line + 1, 0, p.char + 1⟩ cs
     else advance ⟨p.char + 1, p.line, p.col + 1, p.lineStart⟩ cs
+
+/-- a position moved `n` runes to the right by text inserted on an EARLIER line: the offset and
+    the offset of the line start grow by `n`, line and column stay -/
+def Pos.shift (n : Nat) (p : Pos) : Pos := ⟨p.char + n, p.line, p.col, p.lineStart + n⟩
 
 /-- `Lexer.Position()` when `l.position = off` (off ≤ length + 1; the step past the end only
     advances the column) -/
